@@ -7,7 +7,7 @@ use crate::core::*;
 use crate::disk::{Benign, Disk, Segmentation, SimBufRead};
 use crate::genr::*;
 use crate::monitor::{alloc_mark, alloc_peak_since, probe, take_panic};
-use crate::refflac::{self, RefStream, StreamEnd};
+use crate::refflac::{self, RefStream};
 use crate::rng::{Choices, Xoshiro, mix};
 use crate::scen_c17::{expand, interleave32};
 use crate::world::*;
@@ -371,7 +371,7 @@ pub const ENTRY_NAMES: [&str; N_ENTRY] = [
     "seekable byte reader with seek",
 ];
 
-fn c04_one(ctx: &mut Ctx, item: &Item, bytes: &[u8], dmg: &str, which: usize, pat: &Choices) -> R {
+pub(crate) fn c04_one(ctx: &mut Ctx, item: &Item, bytes: &[u8], dmg: &str, which: usize, pat: &Choices) -> R {
     let d = Disk::new(&ctx.ch, ctx.trace);
     let a = item.rs.meta.audio_start;
     let mark = alloc_mark();
@@ -395,7 +395,7 @@ fn c04_one(ctx: &mut Ctx, item: &Item, bytes: &[u8], dmg: &str, which: usize, pa
 }
 
 /// C05 for one damaged file through one reader
-fn c05_one(ctx: &mut Ctx, item: &Item, bytes: &[u8], dmg: &str, plain: bool, rk: RKind, pat: &Choices, rs_alt: &Option<RefStream>) -> R {
+pub(crate) fn c05_one(ctx: &mut Ctx, item: &Item, bytes: &[u8], dmg: &str, plain: bool, rk: RKind, pat: &Choices, rs_alt: &Option<RefStream>) -> R {
     let d = Disk::new(&ctx.ch, ctx.trace);
     let file = d.create(bytes.to_vec());
     let res = catch_unwind(AssertUnwindSafe(|| decode_all(d.open(file, Benign::none()), rk, pat, item.block)));
@@ -514,7 +514,7 @@ fn c05_one(ctx: &mut Ctx, item: &Item, bytes: &[u8], dmg: &str, plain: bool, rk:
     Ok(())
 }
 
-fn c05_verify(ctx: &mut Ctx, bytes: &[u8], dmg: &str, rs_alt: &Option<RefStream>) -> R {
+pub(crate) fn c05_verify(ctx: &mut Ctx, bytes: &[u8], dmg: &str, rs_alt: &Option<RefStream>) -> R {
     let res = catch_unwind(AssertUnwindSafe(|| flac_codec::decode::verify_reader(Cursor::new(bytes))));
     let Ok(r) = res else {
         let _ = take_panic();
@@ -565,7 +565,7 @@ fn c05_verify(ctx: &mut Ctx, bytes: &[u8], dmg: &str, rs_alt: &Option<RefStream>
 }
 
 /// C17 on damaged media: the two readers of one medium must accept the same frames
-fn c17_one(ctx: &mut Ctx, item: &Item, bytes: &[u8], dmg: &str) -> R {
+pub(crate) fn c17_one(ctx: &mut Ctx, item: &Item, bytes: &[u8], dmg: &str) -> R {
     let res = catch_unwind(AssertUnwindSafe(|| {
         let dec = FlacSampleReader::new(Cursor::new(bytes)).map(drain_sample_frames).map_err(|e| format!("{e:?}"));
         let st = flac_codec::stream::FrameIterator::new(Cursor::new(bytes)).map_err(|e| format!("{e:?}")).map(|it| {
@@ -740,7 +740,7 @@ pub fn run(ctx: &mut Ctx) -> R {
 // ------------------------------------------------------------------------------------------
 // the must-reject catalogue (C05 clause 3; the same files also go through C04 and C17)
 
-fn assemble(si_rate: u32, si_ch: u8, si_bps: u32, max_block: u16, total: u64, frames: &[Vec<u8>]) -> Vec<u8> {
+pub(crate) fn assemble(si_rate: u32, si_ch: u8, si_bps: u32, max_block: u16, total: u64, frames: &[Vec<u8>]) -> Vec<u8> {
     use flac_codec::metadata::{Streaminfo, write_blocks};
     let si = Streaminfo {
         minimum_block_size: max_block,
